@@ -335,8 +335,13 @@ class Process(Event):
                     # Create an exclusive copy of the exception for this
                     # process to prevent traceback modifications by other
                     # processes.
-                    exc = type(event._value)(*event._value.args)
-                    exc.__cause__ = event._value
+                    try:
+                        exc = type(event._value)(*event._value.args)
+                        exc.__cause__ = event._value
+                    except TypeError:
+                        # The constructor does not take the exception's own
+                        # args: hand over the original instance.
+                        exc = event._value
                     event = self._generator.throw(exc)
             except StopIteration as e:
                 # Process has terminated.
